@@ -12,13 +12,16 @@
   * `lines_dispatched`: read back through the framing driver, each block's record lines reach exactly that
     section's parser, in order — for any decoder;
   * `record_blocks_accepted_and_recovered`: the file-level statement for the six record blocks.
-  Still only a statement (evaluated by the `lines` oracle and the `enc` correspondence): that the lines of the
-  `[TimingPoints]` and `[HitObjects]` blocks are LF-free record lines accepted by their parsers
+  * `hitobject_lines_accepted_partial`: the lines of circles, spinners and hold notes are LF-free record lines accepted by
+    `parse_hit_objects` in any state, and the same kind of object comes back (for every lawful codec).
+  Still only a statement (evaluated by the `lines` oracle and the `enc` correspondence): slider lines, timing-point lines,
+  and hence that the whole `[TimingPoints]` and `[HitObjects]` blocks are LF-free record lines accepted by their parsers
   (`list_block_lines_accepted_statement`).
 -/
 import RosuModel.Model.Encode
 import RosuModel.Props.C10
 import RosuModel.Lemmas.RtFile
+import RosuModel.Lemmas.RtObjects
 namespace Rosu.C04
 open Rosu Encode EncodeLines C11
 
@@ -174,6 +177,40 @@ theorem record_blocks_accepted_and_recovered (LF : CodecLaws F RF) (LP : CodecLa
     ∃ st : BeatmapState F P, decodeBytes beatmapDecoder (utf8Encode t) = .ok st ∧
       RtFile.recView st = RtFile.preservedRecords m :=
   ⟨RtFile.encode_eq_unlines m t T H h hT hH, RtFile.file_record_roundtrip LF LP LI m hm t T H h hT hH sT sH⟩
+
+end
+
+section
+variable {RF : F → Prop} {RP : P → Prop}
+
+/-- **hitobject_lines_accepted_partial** — circles, spinners and hold notes (sliders missing). Under the codec laws, the
+line `encode_hit_objects` writes for such an object (representable: integral coordinates within ±131072, times within
+the parse limit, combo offset 0..7, sample file name without `: , |`, line feed or `//` and not ending in white space)
+is LF-terminated and LF-free, is a record line (neither header nor skipped), and is accepted by `parse_hit_objects`
+in whatever state; and the same kind of object comes back (`same_record_kind`): the state grows by exactly one object
+of that kind. -/
+theorem hitobject_lines_accepted_partial (LF : CodecLaws F RF) (LP : CodecLaws P RP) (mode : GameMode) (h : HitObject F P)
+    (st : HOCore F P) :
+    (∀ c, h.kind = .circle c → RtObjects.RepCircle RF RP mode h c →
+      ∃ l k, encodeObject mode h = .ok (l ++ EncodeLines.nl) ∧ '\n' ∉ l ∧ RecordLine (trimEnd l) ∧
+        parseHitObjectLine mode st (trimEnd l) = (RtObjects.pushed st 1 h.startTime (.circle k) (RtObjects.decodedSamples h.samples mode), true)) ∧
+    (∀ sp, h.kind = .spinner sp → RtObjects.RepSpinner RF RP mode h sp →
+      ∃ l k, encodeObject mode h = .ok (l ++ EncodeLines.nl) ∧ '\n' ∉ l ∧ RecordLine (trimEnd l) ∧
+        parseHitObjectLine mode st (trimEnd l) = (RtObjects.pushed st 8 h.startTime (.spinner k) (RtObjects.decodedSamples h.samples mode), true)) ∧
+    (∀ ho, h.kind = .hold ho → RtObjects.RepHold RF RP mode h ho →
+      ∃ l k, encodeObject mode h = .ok (l ++ EncodeLines.nl) ∧ '\n' ∉ l ∧ RecordLine (trimEnd l) ∧
+        parseHitObjectLine mode st (trimEnd l) = (RtObjects.pushed st 128 h.startTime (.hold k) (RtObjects.decodedSamples h.samples mode), true)) := by
+  refine ⟨fun c hk hr => ?_, fun sp hk hr => ?_, fun ho hk hr => ?_⟩
+  · obtain ⟨h1, h2, h3, h4⟩ := RtObjects.circle_line_roundtrip LF LP mode h c hk hr st
+    exact ⟨_, _, h1, h2, h3, h4⟩
+  · obtain ⟨h1, h2, h3, h4⟩ := RtObjects.spinner_line_roundtrip LF LP mode h sp hk hr st
+    exact ⟨_, _, h1, h2, h3, h4⟩
+  · obtain ⟨h1, h2, h3, h4⟩ := RtObjects.hold_line_roundtrip LF LP mode h ho hk hr st
+    exact ⟨_, _, h1, h2, h3, h4⟩
+
+/-- non-vacuity (toy codec): the circle line `256,-192,1000,53,2,2:3:0:0:`. -/
+example (st : HOCore ZC ZC) := (hitobject_lines_accepted_partial ZC.laws ZC.laws GameMode.osu RtObjects.sampleCircleObj st).1
+  RtObjects.sampleCircle rfl RtObjects.sampleCircle_rep
 
 end
 
